@@ -166,6 +166,9 @@ func Gen(caseID, tier string) (json.RawMessage, error) {
 		tp.Chain = r.Range(2, 4)
 		tp.Cycle = true
 	}
+	if tp.Chain >= 2 && r.Chance(1, 2) {
+		p.LenientAuthCRealm = true
+	}
 	// operations
 	spns := []string{"HTTP/host.sim.test", "HTTP/web.sim.test", "cifs/files.sim.test"}
 	if tp.Chain > 0 {
@@ -183,7 +186,11 @@ func Gen(caseID, tier string) (json.RawMessage, error) {
 	for len(tp.Ops) < nops {
 		switch x := r.Intn(20); {
 		case x < 8:
-			tp.Ops = append(tp.Ops, Op{Op: "tgs", SPN: spns[r.Intn(len(spns))]})
+			o := Op{Op: "tgs", SPN: spns[r.Intn(len(spns))]}
+			if tp.Chain > 0 && r.Chance(1, 3) {
+				o.SPN = "HTTP/far.sim.test" // repeated requests along the referral chain (sessions for its realms are held by then)
+			}
+			tp.Ops = append(tp.Ops, o)
 		case x < 10:
 			tp.Ops = append(tp.Ops, Op{Op: "cached", SPN: spns[r.Intn(len(spns))]})
 		case x < 13:
